@@ -21,6 +21,11 @@ class Builder:
         self.leaves = {}      # leaf name -> (z3 const, spec)
         self.seq_leaves = {}  # name -> (n const, {key: (idx, elem const)}, spec)
         self.stubs = {}       # arg name -> StubV
+        self.assumptions = [] # intrinsic constraints of the specs
+
+    def assume(self, t):
+        self.assumptions.append(t)
+        self.ctx.pc.append(t)
 
     def leaf(self, name, sort, spec):
         if sort == 'real':
@@ -209,7 +214,7 @@ class RealSeq(Spec):
     def sym(self, B, name):
         from .values import GenArr
         n = z3.Int(name + '.len')
-        B.ctx.assume(n >= self.min_len)
+        B.assume(n >= self.min_len)
         consts = {}
 
         def elem(i, name=name, consts=consts):
@@ -516,6 +521,61 @@ class Stub(Spec):
             if isinstance(v, Spec):
                 out.extend(v.leaf_names('%s.%s' % (name, k)))
         return out
+
+
+class IdText(Spec):
+    """an identifier  prefix + IntText(n, width):  the decimal text of a
+    symbolic integer 0 <= n < 10**width, zero padded to `width` characters"""
+
+    def __init__(self, prefix, width, lo=0, hi=None):
+        self.prefix = prefix
+        self.width = width
+        self.lo = lo
+        self.hi = (10 ** width - 1) if hi is None else hi
+
+    def sym(self, B, name):
+        from .sstr import SStr, IntText, simplify
+        n = B.leaf(name + '.n', 'int', Int(self.lo, self.hi))
+        B.assume(n.t >= 0)
+        B.assume(n.t < 10 ** self.width)
+        return simplify(SStr([self.prefix, IntText(n, self.width)]))
+
+    def sample(self, rng, name, asg):
+        asg[name + '.n'] = rng.randint(self.lo, self.hi)
+
+    def desc(self, name, asg):
+        return {'k': 'const',
+                'v': self.prefix + ('%0*d' % (self.width, int(asg[name + '.n'])))}
+
+    def leaf_names(self, name):
+        return [name + '.n']
+
+
+class Token(Spec):
+    """an unknown separator-free word of symbolic length in [lo, hi]"""
+
+    def __init__(self, lo=1, hi=30):
+        self.lo, self.hi = lo, hi
+
+    def sym(self, B, name):
+        from .sstr import SStr, Tok
+        n = B.leaf(name + '.len', 'int', Int(self.lo, self.hi))
+        B.assume(n.t >= self.lo)
+        B.assume(n.t <= self.hi)
+        return SStr([Tok(name, n)])
+
+    def sample(self, rng, name, asg):
+        asg[name + '.len'] = rng.randint(self.lo, self.hi)
+
+    def desc(self, name, asg):
+        L = int(asg[name + '.len'])
+        alphabet = 'abcdefghijklmnopqrstuvwxyzABCDEFGHIJKLMNOPQRSTUVWXYZ0123456789_()*-+=.'
+        h = abs(hash(name)) if False else sum(ord(c) for c in name)
+        return {'k': 'const', 'v': ''.join(alphabet[(h + 7 * k) % len(alphabet)]
+                                           for k in range(L))}
+
+    def leaf_names(self, name):
+        return [name + '.len']
 
 
 class ClassRef(Spec):
